@@ -946,9 +946,12 @@ func renderE2E(c ecaseJ, res connResult, snaps []snapshot, sawAE []string, relax
 
 // ---------------------------------------------------------------- driver
 type e2eOut struct {
-	Case ecaseJ `json:"case"`
-	Done int    `json:"done"`
-	Err  string `json:"err,omitempty"`
+	Case     ecaseJ `json:"case"`
+	Done     int    `json:"done"`
+	Err      string `json:"err,omitempty"`
+	Closed   bool   `json:"closed"`
+	TimedOut bool   `json:"timed_out"`
+	Tail     string `json:"tail"` // last bytes received (diagnostics)
 }
 
 var relaxedRendered []string // handler cases rendered a second time without Content-Type on 304 replies
@@ -988,15 +991,37 @@ func runCases(cases []ecaseJ, wait time.Duration) (rendered []string, outs []any
 				org.scripts[paths[i]] = &r
 			}
 			org.mu.Unlock()
-			rig := rigs[rigKey{c.Handler, c.AttachRT}]
-			if c.Shutdown > 0 {
-				rig = newProxyRig(c.Handler)
-				go func() {
-					time.Sleep(time.Duration(c.Shutdown) * time.Millisecond)
-					rig.stop() // graceful shutdown: p.closing() becomes true, the exchange in flight is finished
-				}()
+			var rig *proxyRig
+			var res connResult
+			// a connection on which a response never completed is tried once more: a response that really
+			// lacks its end does so again, a stall caused by a loaded machine does not
+			for attempt := 0; attempt < 2; attempt++ {
+				rig = rigs[rigKey{c.Handler, c.AttachRT}]
+				if c.Shutdown > 0 {
+					r0 := newProxyRig(c.Handler)
+					rig = r0
+					go func() {
+						time.Sleep(time.Duration(c.Shutdown) * time.Millisecond)
+						r0.stop() // graceful shutdown: p.closing() becomes true, the exchange in flight is finished
+					}()
+				}
+				if attempt > 0 {
+					for i := range paths {
+						paths[i] += "r"
+						r := c.Exchs[i].Resp
+						org.mu.Lock()
+						org.scripts[paths[i]] = &r
+						org.mu.Unlock()
+					}
+					smu.Lock()
+					stats["connections_retried_after_timeout"]++
+					smu.Unlock()
+				}
+				res = runConn(rig.addr, origin, paths, c, wait)
+				if !res.TimedOut {
+					break
+				}
 			}
-			res := runConn(rig.addr, origin, paths, c, wait)
 			snaps := make([]snapshot, len(paths))
 			sawAE := make([]string, len(paths))
 			rig.mu.Lock()
@@ -1011,7 +1036,11 @@ func runCases(cases []ecaseJ, wait time.Duration) (rendered []string, outs []any
 			if c.Handler {
 				relaxedRendered[ci] = renderE2E(c, res, snaps, sawAE, true)
 			}
-			outs[ci] = e2eOut{c, res.Done, res.Err}
+			tail := res.Stream
+			if len(tail) > 160 {
+				tail = tail[len(tail)-160:]
+			}
+			outs[ci] = e2eOut{c, res.Done, res.Err, res.Closed, res.TimedOut, string(tail)}
 			smu.Lock()
 			note(rendered[ci], res.Done >= 2)
 			stats["connections"]++
@@ -1045,7 +1074,7 @@ func runCases(cases []ecaseJ, wait time.Duration) (rendered []string, outs []any
 
 func runE2E(r *rng.R, thorough bool, ss *shardSet, m *meta, out string) {
 	cases := corpus()
-	n := 260
+	n := 200
 	if thorough {
 		n = 3000
 	}
@@ -1056,7 +1085,7 @@ func runE2E(r *rng.R, thorough bool, ss *shardSet, m *meta, out string) {
 	m.Counts["ecases"] = len(rendered)
 	m.E2E["stats"] = stats
 	// the same kind of connections through the http.Handler variant: the oracle only
-	nh := 60
+	nh := 40
 	if thorough {
 		nh = 600
 	}
